@@ -19,15 +19,13 @@ theorem tie_ValidateBatchWorthBid (a : Auction) (b : Bid) (ab : Allowed) (abErr 
     ValidateBatchWorthBid a b ab abErr =
       !(a.type == .batch && b.denom == a.payDenom && !abErr && !decide (b.toSelling a.payDenom > ab.cap)) := by
   unfold ValidateBatchWorthBid
-  simp only [tie_ConvertToSellingAmount]
-  cases a.type <;> grind
+  cases hty : a.type <;> simp [hty, tie_ConvertToSellingAmount] <;> grind
 
 theorem tie_ValidateBatchManyBid (a : Auction) (b : Bid) (ab : Allowed) (abErr : Bool) :
     ValidateBatchManyBid a b ab abErr =
       !(a.type == .batch && b.denom == a.sellDenom && !abErr && !decide (b.toSelling a.payDenom > ab.cap)) := by
   unfold ValidateBatchManyBid
-  simp only [tie_ConvertToSellingAmount]
-  cases a.type <;> grind
+  cases hty : a.type <;> simp [hty, tie_ConvertToSellingAmount] <;> grind
 
 theorem tie_ValidateFixedPriceBid (a : Auction) (b : Bid) (L : List Bid) (ab : Allowed) (abErr : Bool) :
     ValidateFixedPriceBid a b L ab abErr =
